@@ -117,8 +117,18 @@ func isIncludeKeyword(lex *scanner.Lexeme) bool {
 }
 
 func validateIncludeFileName(s string) error {
+	if s == "" {
+		return errors.New(jerr.IncludeEmptyErr)
+	}
+
 	if s[0] == '/' {
 		return errors.New(jerr.IncludeRootErr)
+	}
+
+	for _, segment := range strings.Split(s, "/") {
+		if segment == "." || segment == ".." {
+			return errors.New(jerr.IncludeUpErr)
+		}
 	}
 
 	hasForbiddenParts := strings.Contains(s, "/./") ||
